@@ -18,7 +18,8 @@ def run(ctx):
                 "distinct = distinct (tle, time); kep2xyz self-check on random element dicts")
     ctx.assumptions += [
         "proved: orientation-vector algebra of kep2xyz (radius, radial speed, speed, angular momentum / plane); over the regenerated SGP4 model: unit direction, plane inclination within (3/4) k2/pL^2 (0.05 deg for pL >= 0.69) and node within (3/2) k2/pL^2 on every answered propagation, vis-viva of the pre-correction state, bounds of the rate corrections, and the distance band a (1 - eL) <= r <= a (1 + eL), |returned radius - r| <= (3 k2/pL^2 r + k2/(2 pL)) XKMPER (below 23 km for pL >= 1, r <= 2), and the energy of the returned state within 1 % of -mu/2a(t) for eL^2 <= 4/25 and osculating perigee >= 1.03 earth radii (vis-viva + perturbation budget closed by interval arithmetic)",
-        "validated by sampling only: velocity = d(position)/dt within 0.15 %, the step from the osculating band to the TLE's perigee/apogee (drag, long-period terms: 40 km budget), the step from a(t) to the TLE summary's semi-major axis in the energy clause, orbit summary",
+        "proved in the drag-free case (at epoch, or B* = 0 at any time; e0 <= 0.39): the returned distance lies between the model's perigee and apogee radii a0''(1 -+ e0) XKMPER widened by 40 km, and the energy is within 1 % of -mu/(2 a0'' XKMPER) (C20_distance_between_perigee_and_apogee*, C20_energy_at_epoch_or_drag_free*)",
+        "validated by sampling only: velocity = d(position)/dt within 0.15 %, both clauses with drag away from epoch, the difference between a0'' and the exposed summary's semi-major axis, orbit summary",
         "translator trusted for 'emitted term = what the code computes over R'; self-checked each run against the interpreter",
     ]
     tr_a, defs_a = numeric.regen(ctx, "astronomy")
